@@ -91,6 +91,9 @@ func TestGovcReplayExprCorpus(t *testing.T) {
 		{`$s.matches("a*")`, `$s "a*" matches `}, {`$s.ends_with("z")`, `$s "z" ends_with `},
 		{`[1].union([2]) == [1, 2]`, `[1] [2] union [1, 2] == `},
 		{`[1].intersection([2]).length() == 0`, `[1] [2] intersection len 0 == `},
+		// layout: the tokens of the documented grammar do not depend on blanks
+		{`$x -3 -2 < 10`, `$x 3 - 2 - 10 < `}, {`$x-3-2<10`, `$x 3 - 2 - 10 < `},
+		{`1+2*3==7`, `1 2 3 * + 7 == `}, {`$a<=1||$b>=2&&$c<3`, `$a 1 <= $b 2 >= $c 3 < && || `},
 	}
 	for _, c := range corpus {
 		chk, err := FromStringCheck("check if " + c.src)
